@@ -29,6 +29,16 @@ def main():
             pass
     common.setup_env()
     chk = common.Check(a.pid, a.tier, a.seed)
+    # watchdog: a check that does not finish is reported as such (fail closed) instead of hanging its caller
+    import signal
+
+    class Watchdog(BaseException):
+        pass
+
+    def on_alarm(signum, frame):
+        raise Watchdog('the check did not finish within its time limit; last frame: %s:%d' % (frame.f_code.co_filename, frame.f_lineno))
+    signal.signal(signal.SIGALRM, on_alarm)
+    signal.alarm(int(os.environ.get('VERIF_WATCHDOG', '1500' if a.tier == 'quick' else '14000')))
     mod = importlib.import_module(a.pid.lower())
     rule = getattr(mod, 'RULE', '')
     # thorough tier: the same correspondence streams under further seeds in parallel worker processes (no proofs there)
@@ -63,6 +73,7 @@ def main():
         if isinstance(e, (KeyboardInterrupt, SystemExit)):
             raise
         chk.broken('harness:' + type(e).__name__, traceback.format_exc())
+    signal.alarm(0)
     chk.workers = []
     for wf, pr in procs:
         try:
